@@ -6,8 +6,10 @@
 //! usage: c35 <cells.ndjson> <obs.ndjson>
 //!
 //! cell: {"id":n,"integ":"axum|actix-web|poem|warp|rocket","entry":"service|single|batch",
-//!        "method":"GET|POST","accept":"json|mixed","frame":"single|batch",
-//!        "items":[{"doc":[{"type":..,"name":..}],"op":".."}]}
+//!        "method":"GET|POST","accept":"json|mixed",
+//!        "qs":[request]   (0 or 1: the request in the query string),
+//!        "body":[request] (JSON body: 0 none, 1 an object, >=2 an array; GET cells may carry one too)}
+//! request: {"doc":[{"type":..,"name":..}],"opk":"absent|empty|given","op":".."}
 //!
 //! The tokio current-thread runtime (and actix's System) only carries the frameworks' own plumbing:
 //! nothing about scheduling is checked here.
@@ -82,19 +84,39 @@ const VARIABLES: &str = r#"{"by":1}"#;
 struct Wire {
     method: String,
     path: String,         // route of the entry
-    uri: String,          // path plus query string (GET)
-    body: Option<String>, // JSON (POST)
+    uri: String,          // path plus query string (if the cell has one)
+    body: Option<String>, // JSON body (POST; also sent along with GET cells that carry one)
     accept: Option<&'static str>,
 }
 
 const ACCEPT_MIXED: &str = r#"multipart/mixed; boundary="graphql"; subscriptionSpec="1.0""#;
 
+/// operationName of a request: absent | present but empty | given
+fn op_name(it: &Value) -> Option<String> {
+    match it["opk"].as_str().unwrap_or("") {
+        "absent" => None,
+        "empty" => Some(String::new()),
+        "given" => Some(it["op"].as_str().unwrap_or_else(|| tool_error("op missing")).to_string()),
+        _ => tool_error("bad opk"),
+    }
+}
+
+fn json_request(it: &Value) -> Value {
+    let mut o = serde_json::Map::new();
+    o.insert("query".into(), json!(render_doc(&it["doc"])));
+    if let Some(n) = op_name(it) {
+        o.insert("operationName".into(), json!(n));
+    }
+    o.insert("variables".into(), serde_json::from_str(VARIABLES).unwrap());
+    Value::Object(o)
+}
+
 fn wire(cell: &Value) -> Wire {
     let integ = cell["integ"].as_str().unwrap_or("");
     let entry = cell["entry"].as_str().unwrap_or("");
     let method = cell["method"].as_str().unwrap_or("").to_string();
-    let frame = cell["frame"].as_str().unwrap_or("");
-    let items = cell["items"].as_array().unwrap_or_else(|| tool_error("items missing"));
+    let qs = cell["qs"].as_array().unwrap_or_else(|| tool_error("qs missing"));
+    let items = cell["body"].as_array().unwrap_or_else(|| tool_error("body missing"));
     let path = match entry {
         "service" => "/",
         "single" => "/single",
@@ -107,44 +129,35 @@ fn wire(cell: &Value) -> Wire {
     }
     let accept = match cell["accept"].as_str().unwrap_or("") {
         "json" => None,
-        "mixed" if entry == "service" && frame == "single" => Some(ACCEPT_MIXED),
+        "mixed" if entry == "service" => Some(ACCEPT_MIXED),
         _ => tool_error("bad accept"),
     };
-    if method == "GET" {
-        if items.len() != 1 || frame != "single" {
-            tool_error("a GET cell carries exactly one request");
-        }
-        let it = &items[0];
-        let mut q = format!("query={}", pct(&render_doc(&it["doc"])));
-        let op = it["op"].as_str().unwrap_or("");
-        if !op.is_empty() {
-            q.push_str(&format!("&operationName={}", pct(op)));
-        }
-        q.push_str(&format!("&variables={}", pct(VARIABLES)));
-        Wire { method, uri: format!("{path}?{q}"), path, body: None, accept }
-    } else if method == "POST" {
-        let reqs: Vec<Value> = items
-            .iter()
-            .map(|it| {
-                let mut o = serde_json::Map::new();
-                o.insert("query".into(), json!(render_doc(&it["doc"])));
-                let op = it["op"].as_str().unwrap_or("");
-                if !op.is_empty() {
-                    o.insert("operationName".into(), json!(op));
-                }
-                o.insert("variables".into(), serde_json::from_str(VARIABLES).unwrap());
-                Value::Object(o)
-            })
-            .collect();
-        let body = match frame {
-            "single" if reqs.len() == 1 => reqs[0].to_string(),
-            "batch" => Value::Array(reqs).to_string(),
-            _ => tool_error("bad frame"),
-        };
-        Wire { method, uri: path.clone(), path, body: Some(body), accept }
-    } else {
-        tool_error("unknown method")
+    if method != "GET" && method != "POST" {
+        tool_error("unknown method");
     }
+    if qs.len() > 1 || (method == "POST" && (!qs.is_empty() || items.is_empty())) {
+        tool_error("bad cell");
+    }
+    // query string: query, operationName (absent | empty | name), variables
+    let uri = match qs.first() {
+        None => path.clone(),
+        Some(it) => {
+            let mut q = format!("query={}", pct(&render_doc(&it["doc"])));
+            if let Some(n) = op_name(it) {
+                q.push_str(&format!("&operationName={}", pct(&n)));
+            }
+            q.push_str(&format!("&variables={}", pct(VARIABLES)));
+            format!("{path}?{q}")
+        }
+    };
+    // JSON body: one request = an object, two or more = an array
+    let reqs: Vec<Value> = items.iter().map(json_request).collect();
+    let body = match reqs.len() {
+        0 => None,
+        1 => Some(reqs[0].to_string()),
+        _ => Some(Value::Array(reqs).to_string()),
+    };
+    Wire { method, path, uri, body, accept }
 }
 
 // ---------------------------------------------------------------------------------------------
@@ -220,11 +233,11 @@ mod ac {
             for (k, w) in wires {
                 let mut req = match w.method.as_str() {
                     "GET" => test::TestRequest::get().uri(&w.uri),
-                    _ => test::TestRequest::post()
-                        .uri(&w.uri)
-                        .insert_header(("content-type", "application/json"))
-                        .set_payload(w.body.clone().unwrap_or_default()),
+                    _ => test::TestRequest::post().uri(&w.uri),
                 };
+                if let Some(b) = &w.body {
+                    req = req.insert_header(("content-type", "application/json")).set_payload(b.clone());
+                }
                 if let Some(a) = w.accept {
                     req = req.insert_header(("accept", a));
                 }
@@ -335,10 +348,11 @@ mod rk {
         Client::untracked(r).await.unwrap_or_else(|e| super::tool_error(&format!("rocket client: {e}")))
     }
     pub async fn call(client: &Client, w: &super::Wire) -> (u16, Vec<u8>) {
-        let resp = match &w.body {
-            None => client.get(w.uri.clone()).dispatch().await,
-            Some(s) => client.post(w.uri.clone()).header(ContentType::JSON).body(s.clone()).dispatch().await,
-        };
+        let mut req = if w.method == "GET" { client.get(w.uri.clone()) } else { client.post(w.uri.clone()) };
+        if let Some(s) = &w.body {
+            req = req.header(ContentType::JSON).body(s.clone());
+        }
+        let resp = req.dispatch().await;
         let status = resp.status().code;
         let body = resp.into_bytes().await.unwrap_or_default();
         (status, body)
